@@ -165,7 +165,23 @@ func runC04(p *Prog, r *Report, tier string) {
 			hdr = c
 		}
 	})
-	isHdrVar := func(v ssa.Value, k int) bool {
+	var isHdrVar func(v ssa.Value, k int) bool
+	isHdrVar = func(v ssa.Value, k int) bool {
+		// a header variable handed back by a helper that was spliced in place arrives merged with the zero values of the
+		// helper's error exits; such an edge is ignored when nothing but error returns can follow it
+		if ph, ok := v.(*ssa.Phi); ok {
+			n := 0
+			for i, e := range ph.Edges {
+				if _, isC := e.(*ssa.Const); isC && onlyErrorReturnsFromEdge(ph.Block().Preds[i], ph.Block()) {
+					continue
+				}
+				if !isHdrVar(e, k) {
+					return false
+				}
+				n++
+			}
+			return n > 0
+		}
 		c, i := wireVar(p, v)
 		return c != nil && c == hdr && i == k
 	}
@@ -677,48 +693,73 @@ func builderErrorsInfeasible(p *Prog, dts *ssa.Function) (bool, string) {
 	if !constArg {
 		return false, "the template decoder does not pass a constant defined set type to PrepareSet"
 	}
-	// AddRecordV2: an error return is either PrepareRecord's error or the unsupported-type fallback
+	// AddRecordV2: an error return is either PrepareRecord's error or the unsupported-type fallback - decided on the
+	// enumerated paths of the function: on every path that ends with a non-nil error, the error is the result of a
+	// PrepareRecord call, or the path knows the set type to be neither Template (0) nor Data (1)
 	why := ""
-	eachInstr(av2, func(in ssa.Instruction) {
-		rt, ok := in.(*ssa.Return)
-		if !ok || !isErrorReturn(rt) {
+	symK := ""
+	wk := &absWalker{MaxPaths: 20000}
+	wk.OnInstr = func(st *absState, in ssa.Instruction) {
+		if u, ok := in.(*ssa.UnOp); ok && u.Op == token.MUL && isFieldLoad(u, "pkg/entities.set.setType") {
+			symK = st.key(u)
+		}
+	}
+	isPrepare := func(v ssa.Value) bool {
+		if ex, ok := v.(*ssa.Extract); ok {
+			v = ex.Tuple
+		}
+		c, ok := v.(*ssa.Call)
+		if !ok {
+			return false
+		}
+		if c.Call.IsInvoke() && c.Call.Method.Name() == "PrepareRecord" {
+			return true
+		}
+		sc := c.Call.StaticCallee()
+		return sc != nil && sc.Name() == "PrepareRecord" && sc.Signature.Recv() != nil
+	}
+	wk.OnEnd = func(st *absState, last ssa.Instruction) {
+		rt, ok := last.(*ssa.Return)
+		if !ok || len(rt.Results) == 0 {
 			return
 		}
-		last := rt.Results[len(rt.Results)-1]
-		// every value that can flow into the returned error (a nil edge of a merged value is no error)
-		allPrepare, some := true, false
-		for _, lf := range phiLeaves(last, 4) {
-			if k, ok := lf.(*ssa.Const); ok && k.IsNil() {
-				continue
-			}
-			some = true
-			isPrep := false
-			if c, ok := lf.(*ssa.Call); ok && c.Call.IsInvoke() && c.Call.Method.Name() == "PrepareRecord" {
-				isPrep = true
-			}
-			if ex, ok := lf.(*ssa.Extract); ok {
-				if c, ok := ex.Tuple.(*ssa.Call); ok && c.Call.IsInvoke() && c.Call.Method.Name() == "PrepareRecord" {
-					isPrep = true
-				}
-			}
-			allPrepare = allPrepare && isPrep
-		}
-		if some && allPrepare {
+		ev := rt.Results[len(rt.Results)-1]
+		isNil, known := st.nilness(ev)
+		if known && isNil {
 			return
 		}
-		// fallback: neither Data nor Template (two != facts on the loaded setType)
-		ne := 0
-		for _, f := range blockFacts(rt.Block()) {
-			if f.Op == token.NEQ {
-				if _, fn, _, ok := loadedField(f.X); ok && fn == "setType" {
-					ne++
+		if isPrepare(st.resolveRaw(ev)) {
+			return
+		}
+		// fallback: neither Data nor Template on this path
+		not0, not1 := false, false
+		if symK != "" {
+			lo, hi := st.bounds(symK)
+			if lo > 0 || hi < 0 {
+				not0 = true
+			}
+			if lo > 1 || hi < 1 {
+				not1 = true
+			}
+			for _, rel := range st.rels {
+				if rel == symK+"!=0" {
+					not0 = true
+				}
+				if rel == symK+"!=1" {
+					not1 = true
 				}
 			}
 		}
-		if ne < 2 {
+		if !(not0 && not1) {
 			why = "AddRecordV2 has an error return other than PrepareRecord's error and the unsupported-set-type fallback"
 		}
-	})
+	}
+	if len(av2.Blocks) > 0 {
+		wk.walk(newAbsState(), av2.Blocks[0], 0)
+	}
+	if wk.Overflow {
+		why = "AddRecordV2 has too many paths to enumerate"
+	}
 	if why != "" {
 		return false, why
 	}
